@@ -322,6 +322,7 @@ package minersc
 //@   at-call updateMinersMPKs assert[only-in-the-contribute-phase] pn.Phase == Contribute
 //@   at-call updateMinersMPKs assert[sender-takes-part] t.ClientID in dmn.SimpleNodes
 //@   at-call updateMinersMPKs assert[key-has-t-components] len(mpk.Mpk) == dmn.T
+//@   at-call updateMinersMPKs assert[stored-under-the-sender] mpk.ID == t.ClientID
 //@ func (*MinerSmartContract).shareSignsOrShares
 //@   prop C38
 //@   requires msc != nil && t != nil && balances != nil
